@@ -8,7 +8,7 @@ Section SimA.
   Variable W : Type.
   Variable p : rwp.
   Variable typeof : bool -> sval -> nat.
-  Variable tbl : list kpart -> option sval.
+  Variable tbl : nat -> list kpart -> option sval.
   Variable callv : sval -> list sval -> list (nat * sval) -> W -> outcome sval * W * list event.
   Variable ugl : nat -> option sval.
   Variable mself : sval.
@@ -330,11 +330,11 @@ Section SimA.
     rewrite H1, (vrel_shape _ _ H2), IHForall2. reflexivity.
   Qed.
 
-  Lemma dispatch_rel : forall pre slf slf' ar ar' kw kw' s s', Forall2 vrel slf slf' -> Forall2 vrel ar ar' -> kw_rel p kw kw' -> srel s s' ->
-    out_rel vrel (fst (dispatch W p typeof tbl callv pre slf ar kw s)) (fst (dispatch W p typeof tbl callv pre slf' ar' kw' s')) /\
-    srel (snd (dispatch W p typeof tbl callv pre slf ar kw s)) (snd (dispatch W p typeof tbl callv pre slf' ar' kw' s')).
+  Lemma dispatch_rel : forall nid pre slf slf' ar ar' kw kw' s s', Forall2 vrel slf slf' -> Forall2 vrel ar ar' -> kw_rel p kw kw' -> srel s s' ->
+    out_rel vrel (fst (dispatch W p typeof tbl callv nid pre slf ar kw s)) (fst (dispatch W p typeof tbl callv nid pre slf' ar' kw' s')) /\
+    srel (snd (dispatch W p typeof tbl callv nid pre slf ar kw s)) (snd (dispatch W p typeof tbl callv nid pre slf' ar' kw' s')).
   Proof.
-    intros pre slf slf' ar ar' kw kw' s s' Hsl Ha Hk Hs. unfold dispatch.
+    intros nid pre slf slf' ar ar' kw kw' s s' Hsl Ha Hk Hs. unfold dispatch.
     pose proof (entry_bind_rel ar ar' kw kw' Ha Hk) as He.
     destruct (entry_bind p ar kw) as [[a k]|], (entry_bind p ar' kw') as [[a' k']|]; try contradiction.
     - destruct He as [He1 He2]. rewrite (pos_key_rel _ _ 0 He1), (kw_key_rel _ _ He2).
@@ -363,6 +363,6 @@ Section SimA.
 
   (* the bare name recurse of a plain function denotes the function itself *)
   Lemma call_rec_ovld : a_method (p_anal p) = false -> forall ar kw s,
-    call_prim W p typeof tbl callv mself PRecurse ar kw s = call_prim W p typeof tbl callv mself POvld ar kw s.
+    call_prim W p typeof tbl callv mself PRecurse ar kw s = call_prim W p typeof tbl callv mself (POvld (p_id p)) ar kw s.
   Proof. intros H ar kw s. simpl. unfold self_list, an. rewrite H. reflexivity. Qed.
 End SimA.
